@@ -454,6 +454,47 @@ fn gen_leader(r: &mut Rng) -> String {
     )
 }
 
+/// structured stream: heartbeat rounds at the configured interval, acks of (possibly old) rounds arriving with
+/// delays, match indexes consistent with the log — the shape in which F12 lives
+fn gen_leader_rounds(r: &mut Rng) -> String {
+    let n = *r.pick(&[3u64, 3, 5, 5, 7]);
+    let lease = *r.pick(&[250u64, 250, 400, 100]);
+    let term = 1 + r.below(5);
+    let own = 1 + r.below(3);
+    let old = r.below(2);
+    let mut log: Vec<u64> = vec![];
+    for _ in 0..old { log.push(term.saturating_sub(1).max(1)); }
+    for _ in 0..own { log.push(term); }
+    let last = log.len() as u64;
+    let commit = if r.chance(1, 2) { last } else { r.below(last + 1) };
+    let mut clock = 1 + r.below(5000);
+    let mut ops = vec![format!("c{clock}")];
+    let mut round = 0u64;
+    let rounds = 2 + r.below(6);
+    for _ in 0..rounds {
+        round += 1;
+        ops.push("hb".into());
+        // some peers answer some round (often the current one, sometimes an old one), after a delay
+        for p in 2..=n {
+            if r.chance(2, 3) {
+                let d = *r.pick(&[0u64, 1, 5, 20, 90]);
+                if d > 0 { clock += d; ops.push(format!("c{clock}")); }
+                let rd = if r.chance(3, 4) { round } else { 1 + r.below(round) };
+                let mi = if r.chance(5, 6) { last } else { r.below(last + 1) };
+                ops.push(format!("a{p}.{term}.{term}.{mi}.{rd}"));
+                if r.chance(1, 5) { ops.push("r".into()); }
+            }
+        }
+        clock += *r.pick(&[100u64, 100, 100, 300, 1000, 10_000]);
+        ops.push(format!("c{clock}"));
+        if r.chance(1, 12) {
+            ops.push(r.pick(&["v", "ae", "cu"]).to_string() + &(term + 1).to_string());
+        }
+    }
+    ops.push("r".into());
+    format!("k=leader n={n} lrn=- lease={lease} term={term} log={} commit={commit}|{}", show_list(&log), ops.join(";"))
+}
+
 fn gen_follower(r: &mut Rng) -> String {
     let term = 1 + r.below(3);
     let loglen = r.below(4);
@@ -478,8 +519,9 @@ fn generate(r: &mut Rng, n: usize, _tier: &str) -> Vec<String> {
     let mut out = vec![];
     for i in 0..n {
         out.push(match i % 10 {
-            0 | 1 | 2 => gen_pack(r),
-            3 => gen_follower(r),
+            0 | 1 => gen_pack(r),
+            2 => gen_follower(r),
+            3 | 4 | 5 => gen_leader_rounds(r),
             _ => gen_leader(r),
         });
     }
